@@ -75,6 +75,9 @@ structure Disk where
   marker : Bool
   deriving DecidableEq, Repr
 
+/-- the content of the four files (everything but the lock marker) -/
+def Disk.files (d : Disk) : CfgView × Bool × Nat × JsView × Nat := (d.cfg, d.cfgMissing, d.cfgVer, d.js, d.jsVer)
+
 /-- a `Cluster` object -/
 structure Handle where
   /-- `_hostname`, fixed at construction -/
